@@ -52,7 +52,7 @@ UNIT = dict(
         fn('insert_result', impl=r"^impl<T: Clone \+ Debug \+ 'static, E: Clone \+ Debug \+ 'static> ThreadLocalCache<Result<T, E>>$", requires=store_pre(M), ensures=insert_result_ensures(M)),
         fn('insert_result_with_memory', impl=r"MemoryEstimator,? > ThreadLocalCache<Result<T, E>>$", impl_rules=IMPL_RULES,
            requires=store_pre(M) + [('counters_unsaturated', 'freq_ok(old(self).%s@)' % M)],
-           ensures=[e for e in insert_result_ensures(M) if e[0] in ('cfg_frame', 'err_changes_nothing', 'post_wf', 'survivors_unchanged')]
+           ensures=[e for e in insert_result_ensures(M) if e[0] in ('cfg_frame', 'err_changes_nothing', 'post_wf', 'survivors_unchanged', 'stats_frame')]
                    + [('ok_stored', ['C09', 'C01'], '(value is Ok && final(self).%s@.contains_key(s2s(key))) ==> final(self).%s@[s2s(key)].value is Ok && cloned(value->Ok_0, final(self).%s@[s2s(key)].value->Ok_0)' % (M, M, M))]),
     ],
 )
